@@ -68,7 +68,7 @@ PROPS["C07"] = {
 
 PROPS["C08"] = {
     "level": "proof",
-    "technique": "Verus contracts on the extracted lease operations (acquire / renew / complete / fail / scavenge, in-memory backend; acquire with its CAS retry loop, object-store backend): inductive invariant 'Active leases have pairwise disjoint chunk lists', closures handed to retain/filter lifted and verified, rely on the conditional-PUT contract of the lease file",
+    "technique": "Verus contracts on the extracted lease operations (acquire / renew / complete / fail / scavenge on both backends; the object-store versions with their CAS retry loops: success is justified relative to the version the successful attempt loaded): inductive invariant 'Active leases have pairwise disjoint chunk lists', closures handed to retain/filter lifted and verified, rely on the conditional-PUT contract of the lease file",
     "verus": ["c08_leases.rs.in"],
     "explanation": "",
     "assumptions": [
